@@ -32,9 +32,9 @@ func c16Derive(db *gorm.DB, kind int) *gorm.DB {
 type c16Shape struct {
 	variant int  // 0: Attrs(age) + Assign(score); 1: Attrs and Assign name the same column; 2: Assign only
 	create  bool // FirstOrCreate (else FirstOrInit)
-	pos    int  // where the derivation is inserted: 0 after Where, 1 after Attrs, 2 after Assign
-	kind   int  // derivation kind (0 = none)
-	form   int  // 0 struct forms, 1 map forms, 2 key-value forms
+	pos     int  // where the derivation is inserted: 0 after Where, 1 after Attrs, 2 after Assign
+	kind    int  // derivation kind (0 = none)
+	form    int  // 0 struct forms, 1 map forms, 2 key-value forms
 }
 
 func c16Shapes(tier int) []c16Shape {
